@@ -652,8 +652,10 @@ class ViewRepresentation(OperatorPlatform, abc.ABC):
             )
             same_windowing = (
                 data_algebra.expr_rep.implies_windowed(parsed_ops)
-                == self.windowed_situation
-            )
+                or (partition_by == 1)
+                or (len(partition_by) > 0)
+                or (len(order_by) > 0)
+            ) == self.windowed_situation
             if (
                 compatible_partition
                 and same_windowing
